@@ -25,6 +25,9 @@ type c14Case struct {
 	Keys   []string `json:"keys"` // tab | backtab | down | up | interrupt | type | ret
 	ICase  bool     `json:"icase"`
 	// second completion round in the same call: text typed after the first round, then keys
+	// an incremental history search started and left earlier in the same call (the buffer is
+	// emptied again before the text is typed)
+	Searched string `json:"searched,omitempty"` // "" | abort | accept
 	Text2 string   `json:"text2,omitempty"`
 	Keys2 []string `json:"keys2,omitempty"`
 }
@@ -100,6 +103,11 @@ func c14Gen(r *rand.Rand, tier string, idx int) any {
 	}
 	c.Tagged = r.Intn(4) == 0
 	c.NoSp = r.Intn(4) == 0
+	if c.Mode == "emacs" && r.Intn(4) == 0 {
+		// (Emacs only: in the Vi insert keymap C-g does not leave the search)
+		c.Searched = pick(r, []string{"abort", "accept"})
+		c.Hist = []string{"echo hello", "ls -la"}
+	}
 	menuKeys := []string{"tab", "tab", "tab", "backtab", "down", "up", "left", "right", "ctrl-n", "ctrl-p", "search", "accept-and"}
 	nk := 1 + r.Intn(6)
 	for i := 0; i < nk; i++ {
@@ -157,6 +165,15 @@ func c14Run(env *fw.Env, raw json.RawMessage) fw.Outcome {
 	s := sess.New(env.T, env.Scratch, cfg)
 	defer s.Close()
 	var plan []sess.Step
+	if c.Searched != "" {
+		leave := "\x07"
+		if c.Searched == "accept" {
+			leave = "\x1b" // the match stays in the line
+		}
+		for _, k := range []string{"zzz", "\x12", "hel", leave, "\x05", "\x15"} {
+			plan = append(plan, sess.Step{W: k, Tag: "searched"})
+		}
+	}
 	if c.L0 != "" {
 		plan = append(plan, sess.Step{W: c.L0, Tag: "type"})
 	}
@@ -177,7 +194,7 @@ func c14Run(env *fw.Env, raw json.RawMessage) fw.Outcome {
 		}
 	}
 	res := s.Call(plan, retExit)
-	ctx := fmt.Sprintf("mode=%s L0=%q back=%d values=%q descs=%v tagged=%v nospace=%v icase=%v keys=%v", c.Mode, c.L0, c.Back, c.Values, len(c.Descs) > 0, c.Tagged, c.NoSp, c.ICase, c.Keys)
+	ctx := fmt.Sprintf("mode=%s searched-before=%q L0=%q back=%d values=%q descs=%v tagged=%v nospace=%v icase=%v keys=%v", c.Mode, c.Searched, c.L0, c.Back, c.Values, len(c.Descs) > 0, c.Tagged, c.NoSp, c.ICase, c.Keys)
 	if !stdFailures(&o, res, ctx) {
 		o.O.Sample = map[string]any{"ctx": ctx}
 		return o.O
